@@ -72,27 +72,48 @@ def realEvalr : Evalr Pcg.Rng where
     | .ok r => .ok r
     | .error e => .error (mapErr e)
 
-/-- `ctl_doc loopLimit varLimit depthLimit tok…` → status depth scopeHeight elemStackHeight inSpecs outside ev… -/
+/-- run a document given as protocol tokens through `transformDoc` with the real expression evaluator -/
+def runCtlDoc (ll vl dl : Str) (toks : List Str) : St Pcg.Rng × Res :=
+  let cfg : Cfg := { loopLimit := Num.digitsToNat ll, varLimit := Num.digitsToNat vl, depthLimit := Num.digitsToNat dl }
+  let doc := parseDoc (toks.filterMap decodeTok)
+  let st0 : St Pcg.Rng := { rng := Pcg.seedFromU64 0, cfg := cfg }
+  let fuel := 4000 + 40 * toks.length
+  let (_, st, r) := transformDoc realEvalr fuel st0 doc
+  (st, r)
+
+/-- the fields both `ctl_doc` ops start with: status depth scopeHeight elemStackHeight inSpecs outside bbox -/
+def ctlHead (st : St Pcg.Rng) (r : Res) : List Str :=
+  let status : Str := match r with
+    | .ok _ => cs!"ok"
+    | .error e => cs!"err:" ++ e.name.toList
+  let bb : Str := match r with
+    | .ok (_, some b) => bboxStr b
+    | _ => cs!"none"
+  [status, natField st.depth, natField st.scopes.length, natField st.elemStack.length,
+    (if st.inSpecs then ['1'] else ['0']), (if st.outside then ['1'] else ['0']), bb]
+
+def ctlEvs (r : Res) : List Str :=
+  match r with
+  | .ok (evs, _) => evs.map encodeEv
+  | .error _ => []
+
+/-- `ctl_doc loopLimit varLimit depthLimit tok…` → status depth scopeHeight elemStackHeight inSpecs outside bbox ev…
+    (documents may contain `<defaults>`: it is an ordinary element with content for the codec);
+    `ctl_doc_defaults` (same arguments) → the same seven fields, then the number of scopes `n` and `n` fields with the
+    number of defaults stored in each scope at the end of the run (innermost first), then the events -/
 def handleCtl (op : Str) (args : List Str) : Option String :=
   if op == cs!"ctl_doc" then
     match args with
     | ll :: vl :: dl :: toks =>
-      let cfg : Cfg := { loopLimit := Num.digitsToNat ll, varLimit := Num.digitsToNat vl, depthLimit := Num.digitsToNat dl }
-      let doc := parseDoc (toks.filterMap decodeTok)
-      let st0 : St Pcg.Rng := { rng := Pcg.seedFromU64 0, cfg := cfg }
-      let fuel := 4000 + 40 * toks.length
-      let (_, st, r) := transformDoc realEvalr fuel st0 doc
-      let status : Str := match r with
-        | .ok _ => cs!"ok"
-        | .error e => cs!"err:" ++ e.name.toList
-      let evs := match r with
-        | .ok (evs, _) => evs.map encodeEv
-        | .error _ => []
-      let bb : Str := match r with
-        | .ok (_, some b) => bboxStr b
-        | _ => cs!"none"
-      some (joinFields ([status, natField st.depth, natField st.scopes.length, natField st.elemStack.length,
-        (if st.inSpecs then ['1'] else ['0']), (if st.outside then ['1'] else ['0']), bb] ++ evs))
+      let (st, r) := runCtlDoc ll vl dl toks
+      some (joinFields (ctlHead st r ++ ctlEvs r))
+    | _ => none
+  else if op == cs!"ctl_doc_defaults" then
+    match args with
+    | ll :: vl :: dl :: toks =>
+      let (st, r) := runCtlDoc ll vl dl toks
+      some (joinFields (ctlHead st r ++ [natField st.scopes.length] ++
+        st.scopes.map (fun s => natField s.defaults.length) ++ ctlEvs r))
     | _ => none
   else if op == cs!"sched_run" then
     -- `sched_run "id dep dep…" …` → `some id=level …` (in resolution order) | `none`:
